@@ -224,6 +224,18 @@ ObjTo(o, ui) ==
              /\ bufs' = bufs \o [c \in 1..nc |-> [i \in 1..NRows(o) |-> RMul(Vals(o, c)[i], k)]]
           /\ res' = ObjRes(NextOid)
 
+\* v.x / v.y / v.z = <a fresh Array holding the values of src>: a component is replaced (or a third one added) after
+\* construction; every later operation must see the current components.  Only well-formed assignments are generated
+\* (the attribute is not validated by the code).
+VecSet(o, c, src) ==
+  /\ En("vset") /\ ~IsArr(o) /\ IsArr(src) /\ c \in 1..3 /\ c <= NComp(o) + 1
+  /\ ~heap[o].scalar /\ ~heap[src].scalar /\ NRows(src) = NRows(o) /\ heap[src].unit = heap[o].unit /\ heap[src].dt = heap[o].dt
+  /\ Step([op |-> "vset", o |-> o, c |-> c, src |-> src]) /\ UNCHANGED <<dgs, dss>>
+  /\ bufs' = Append(bufs, Vals(src, 1))
+  /\ heap' = [heap EXCEPT ![o].comps = [j \in 1..(IF c > NComp(o) THEN c ELSE NComp(o)) |->
+                                          IF j = c THEN [buf |-> NextBid, idx |-> [i \in 1..NRows(o) |-> i]] ELSE heap[o].comps[j]]]
+  /\ res' = NoRes
+
 \* ------------------------------------------------------------------ sorting
 \* argsort without ties (pool values are distinct inside a component)
 SortPerm(s) == LET n == Len(s)
@@ -277,11 +289,13 @@ ConvFactor(op, o, rhs) == IF Compatible(heap[o].unit, RhsUnit(rhs)) THEN Ratio(R
 ResUnit(op, o, rhs) ==
   LET u == heap[o].unit  v == IF Compatible(u, RhsUnit(rhs)) THEN u ELSE RhsUnit(rhs) IN
   CASE op \in {"add", "sub"} -> u [] op = "mul" -> UMul(u, v) [] op = "div" -> UDiv(u, v)
-IOp(op, o, rhs) ==
+\* q: the right operand (an Array) is handed over as a pint Quantity wrapping the very buffer of rhs - same meaning,
+\* and in particular the buffer of rhs must come out untouched
+IOpQ(op, o, rhs, q) ==
   /\ En("iop")
   /\ LET outcome == IOpOutcome(op, o, rhs) IN
      /\ outcome # "skip"
-     /\ Step([op |-> "iop", f |-> op, o |-> o, rhs |-> rhs]) /\ UNCHANGED <<dgs, dss>>
+     /\ Step([op |-> "iop", f |-> op, o |-> o, rhs |-> rhs, q |-> q]) /\ UNCHANGED <<dgs, dss>>
      /\ IF outcome = "raise" THEN res' = Exc("Error") /\ UNCHANGED <<heap, bufs>>
         ELSE LET k == ConvFactor(op, o, rhs)
                  nc == NComp(o)  nr == NRows(o)
@@ -311,6 +325,7 @@ IOp(op, o, rhs) ==
 \* a Vector component update happens component after component; when the right-hand side aliases a later
 \* component of x the result would depend on that order - such operand pairs are not in the pool.
 IOpArgsOk(o, rhs) == IF rhs = 0 \/ rhs = o \/ IsArr(o) THEN TRUE ELSE ~Shares(o, rhs)
+IOp(op, o, rhs) == IOpQ(op, o, rhs, FALSE)
 
 \* ------------------------------------------------------------------ equality (C20)
 \* element-wise equality after conversion of the right operand into the left operand's unit
@@ -404,9 +419,11 @@ Next ==
   \/ \E o \in Os, kind \in IdxUse \ {"maskArr", "iaArr"} : Slice(o, kind)
   \/ \E o \in Os, how \in {"copy", "deepcopy"} : Copy(o, how)
   \/ \E o \in (IF ObjUse = {} THEN Os ELSE ObjUse \cap Os), ui \in 1..3 : ObjTo(o, ui)
+  \/ \E o \in Os, c \in 1..3, src \in Os : VecSet(o, c, src)
   \/ \E g \in Gs, k \in Keys : DgSortByKey(g, k)
   \/ \E g \in Gs, p \in {<<3, 1, 2>>, <<2, 1>>, <<2, 2, 1>>} : DgSortByIdx(g, p)
-  \/ \E op \in OpsUse, o \in (IF ObjUse = {} THEN Os ELSE ObjUse \cap Os), rhs \in {0} \cup (IF ObjUse = {} THEN Os ELSE ObjUse \cap Os) : IOpArgsOk(o, rhs) /\ IOp(op, o, rhs)
+  \/ \E op \in OpsUse, o \in (IF ObjUse = {} THEN Os ELSE ObjUse \cap Os), rhs \in {0} \cup (IF ObjUse = {} THEN Os ELSE ObjUse \cap Os) :
+         IOpArgsOk(o, rhs) /\ \E q \in (IF rhs # 0 /\ IsArr(rhs) THEN BOOLEAN ELSE {FALSE}) : IOpQ(op, o, rhs, q)
   \/ \E g, h \in Gs : DgEq(g, h)
   \/ \E d \in Ds, k \in Keys, g \in Gs : DsSet(d, k, g)
   \/ \E d \in Ds, k \in Keys : DsSetBad(d, k, 1) \/ DsUpdateBad(d, k, 5) \/ DsDel(d, k) \/ DsPop(d, k) \/ DsGet(d, k)
